@@ -20,6 +20,10 @@ use rayon::prelude::*;
 mod data_structures;
 pub use data_structures::*;
 
+/// Verification hooks (only with `--cfg arkworks_rs_poly_commit_verif`).
+#[cfg(all(arkworks_rs_poly_commit_verif, feature = "std"))]
+pub mod verif_hooks;
+
 /// A polynomial commitment scheme based on the hardness of the
 /// discrete logarithm problem in prime-order groups.
 /// The construction is described in detail in [[BCMS20]][pcdas].
@@ -82,6 +86,9 @@ where
 
             i += 1;
         }
+
+        #[cfg(all(arkworks_rs_poly_commit_verif, feature = "std"))]
+        verif_hooks::record_challenge(&challenge.unwrap());
 
         challenge.unwrap()
     }
